@@ -113,7 +113,7 @@ CHECKS = {
         design="DESIGN.md §4 C11",
     ),
     "C20": dict(
-        rules="R20.1, R20.3-R20.16, R12.3, R20.2",
+        rules="R20.1, R20.3-R20.17, R12.3, R20.2",
         what="every loop that re-queues deferred work has a per-iteration counter compared with a constant bound that leaves the loop; type-checker deferral limited by pass_num < last_pass; partial arithmetic operators of the constant folders guarded against every failure precondition; placeholder-triggered deferrals are conditional on not being in the final iteration (defer() asserts it); constant-valued index variables are range-checked against len() of the subscripted sequence; the guard before `assert add_symbol(...)` in push_type_args recognises every type-parameter node kind and rejected parameters are not returned; no branch reports an `internal error` message as its planned outcome; a saved list index accounts for later deletions; pop() on a set built in the function is dominated by a non-emptiness test; names from configuration are not unchecked keys of the error-code registry; Instance asserts after is_subtype come after the TypeVar/union/Any cases",
         quant="input programs",
         technique="CFG cycle/must-pass queries for counter-bounded fix-points; guard-chain analysis of partial operators",
